@@ -108,7 +108,8 @@ class StmtMixin:
                     env["g_k"] = p.frame.locals[k]
             v = self.spec_val(st.value, p, env)
             if isinstance(tgt, ast.Name):
-                p.frame.locals[tgt.id] = v
+                home = next((f for f in reversed(p.frames) if tgt.id in f.locals), p.frame)
+                home.locals[tgt.id] = v
             else:
                 obj = self.spec_val(tgt.value, p, env)
                 self.write_field(p, obj, tgt.attr, v)
